@@ -262,7 +262,7 @@ func findEmissionsIn(fn *Func, body ast.Node, sel emitSel) []ast.Node {
 			if as, ok := n.(*ast.AssignStmt); ok && len(as.Lhs) == len(as.Rhs) {
 				for i, l := range as.Lhs {
 					if id, ok := ast.Unparen(l).(*ast.Ident); ok && (sel.name == "" || identIs(fn, id, sel.name)) {
-						if sel.argIs == "" || sameText(fn, exprStr(as.Rhs[i]), sel.argIs) {
+						if sel.argIs == "" || sameText(fn, exprStr(as.Rhs[i]), sel.argIs) || sameText(fn, exprStr(fn.InlineLocals(as.Rhs[i], 2)), sel.argIs) {
 							out = append(out, as)
 						}
 					}
